@@ -39,7 +39,12 @@ def own_count(name, h, s, r):
     """the counter's own outputs on the digitised history (digitised by the implementation)"""
     core.import_impl()
     from ffpack import utils
-    d = utils.sequenceDigitization(cyc.floats(h, s), r * 2.0 ** -s if s >= 0 else r / 10 ** (-s))
+    resf = r * 2.0 ** -s if s >= 0 else r / 10 ** (-s)
+    d = utils.sequenceDigitization(cyc.floats(h, s), resf)
+    ref = [core.digitise_ref(v, resf) for v in cyc.floats(h, s)]
+    if [float(v) for v in d] != ref:
+        bad = [(a, float(b), c) for a, b, c in zip(cyc.floats(h, s), d, ref) if float(b) != c][:3]
+        return None, {'error': 'digitised-value-differs-from-rint(d/resolution)*resolution:' + repr(bad)}
     try:
         dh = [to_grid(v, s) for v in d]
     except OffGrid as e:
@@ -80,7 +85,7 @@ def explore(res, rng, n):
             if dh is None:
                 # k * resolution is exact on the binary grid, so an off-grid digitised value is not a multiple of the resolution
                 res.failures.append({'signature': f'C07:digitise:offgrid:{enc_list(h)}:{s}:{r}',
-                                     'clause': 'sequenceDigitization returned a value that is not a multiple of the resolution: ' + own['error'],
+                                     'clause': 'sequenceDigitization returned a value that is not the nearest multiple of the resolution: ' + own['error'],
                                      'api': 'sequenceDigitization', 'input': h, 'scale': s, 'resolution': r})
                 continue
             if len(set(dh)) > 1:
